@@ -2,7 +2,9 @@
 
 A real StorageServer directory is prepared on tmpfs with immutable shares carrying 0, 1 and 4
 leases, a bucket with two immutable shares, mutable shares with 0/4/5/6 leases x 0/5/40 data
-bytes and a slot with two mutable shares.  For every operation of a fixed catalogue (immutable
+bytes, a slot with two mutable shares, and one immutable and one mutable share of 20000 bytes
+(bigger than CPython's file buffer, so that header writes and writes behind the data of one
+operation reach the file system as separate system calls).  For every operation of a fixed catalogue (immutable
 upload into a new and into an existing bucket, add_lease with a new and with a known secret,
 renew_lease, mutable create / write within size / write that grows the container so that the
 extra leases move / truncate / delete, mutable 5th/6th/7th lease, the expirer's cancel_lease
@@ -35,7 +37,7 @@ from .. import lib_crash as K
 
 LEVEL = "fault_enumeration"
 ASSUMPTIONS = [
-    "failure model = process kill: completed system calls persist, userspace-buffered bytes are lost, a single raw write() is atomic (every write in this harness is < 4096 bytes); power loss / reordering of unsynced blocks is not modelled",
+    "failure model = process kill: completed system calls persist, userspace-buffered bytes are lost, a single raw write() is atomic (every write inside a crash-explored operation is < 4096 bytes; the two 20000-byte shares are prepared beforehand); power loss / reordering of unsynced blocks is not modelled",
     "crash points = every builtins.open that creates/truncates, every FileIO.write/truncate below CPython's real buffering, every os.rename/replace/unlink/remove/rmdir/mkdir/truncate under the storage directory; a kill between two such calls is equivalent to a kill instead of the later one",
     "one operation at a time (no concurrent operations on the server when it is killed)",
     "'complete' for an immutable share means: reads back exactly the uploaded bytes and reports the uploaded length (a share that returns extra bytes after its data is not complete)",
@@ -97,6 +99,10 @@ def catalog(seed):
         for dl in (0, 5, 40):
             n = "m%d_%d" % (nl, dl)
             add(n, MUT, n, 0, nl, dl)
+    # shares BIGGER than CPython's 8 KiB file buffer: a header write and a write behind the data of one
+    # operation then reach the file system as separate system calls, with a kill point in between
+    add("iB", IMM, "iB", 0, 1, 20000)
+    add("mB5", MUT, "mB5", 0, 5, 20000)
     add("mp0", MUT, "mp", 0, 1, 12)
     add("mp1", MUT, "mp", 1, 1, 12)
     return cat
@@ -158,13 +164,14 @@ def op_catalogue(tier):
     A({"op": "imm-upload", "bucket": "new-imm", "shnum": 0, "size": 10})
     A({"op": "imm-upload", "bucket": "ip", "shnum": 2, "size": 9})       # existing bucket: renews/adds leases on ip0, ip1
     A({"op": "imm-upload", "bucket": "i4", "shnum": 3, "size": 23})
-    imm_lease_targets = ["i0", "i1", "i4", "ip"]
-    mut_lease_targets = ["m0_5", "m4_5", "m5_40", "m6_5", "mp"]
+    A({"op": "imm-upload", "bucket": "iB", "shnum": 1, "size": 9})       # adds a lease to the 20000-byte share iB
+    imm_lease_targets = ["i0", "i1", "i4", "ip", "iB"]
+    mut_lease_targets = ["m0_5", "m4_5", "m5_40", "m6_5", "mp", "mB5"]
     if tier == "thorough":
         mut_lease_targets = ["m%d_%d" % (nl, dl) for nl in (0, 4, 5, 6) for dl in (0, 5, 40)] + ["mp"]
     for b in imm_lease_targets + mut_lease_targets:
         A({"op": "add-lease-new", "bucket": b})
-    known = [("i1", 0), ("i4", 0), ("i4", 3), ("ip", 0), ("m4_5", 3), ("m5_40", 4), ("m6_5", 5), ("mp", 0)]
+    known = [("i1", 0), ("i4", 0), ("i4", 3), ("ip", 0), ("m4_5", 3), ("m5_40", 4), ("m6_5", 5), ("mp", 0), ("iB", 0), ("mB5", 4)]
     if tier == "thorough":
         known += [("i4", 1), ("i4", 2), ("m5_0", 0), ("m5_5", 4), ("m6_0", 4), ("m6_40", 5), ("m4_40", 0)]
     for b, idx in known:
@@ -183,11 +190,14 @@ def op_catalogue(tier):
         if tier == "thorough" or b in ("m6_5", "m5_5"):
             A({"op": "mut-write", "bucket": b, "shnum": 0, "offset": 600, "size": 4})   # grows by more than the extra-lease block
             A({"op": "mut-write", "bucket": b, "shnum": 0, "offset": 3, "size": 60})    # overlapping old data and old lease area
+    A({"op": "mut-write", "bucket": "mB5", "shnum": 0, "offset": 19990, "size": 30})     # grows the big container, its extra lease moves
+    A({"op": "mut-write", "bucket": "mB5", "shnum": 0, "offset": 10, "size": 30})
+    A({"op": "mut-truncate", "bucket": "mB5", "shnum": 0, "new_length": 9000})
     for b in trunc:
         A({"op": "mut-truncate", "bucket": b, "shnum": 0, "new_length": 7})
     for b in delete:
         A({"op": "mut-delete", "bucket": b, "shnum": 0})
-    cancels = [("i4", 0, [1]), ("i4", 0, [3]), ("i4", 0, [0, 2]), ("i4", 0, [0, 1, 2, 3]), ("i1", 0, [0]), ("ip", 1, [0]),
+    cancels = [("iB", 0, [0]), ("mB5", 0, [4]), ("mB5", 0, [0]), ("i4", 0, [1]), ("i4", 0, [3]), ("i4", 0, [0, 2]), ("i4", 0, [0, 1, 2, 3]), ("i1", 0, [0]), ("ip", 1, [0]),
                ("m5_40", 0, [1]), ("m5_40", 0, [4]), ("m6_5", 0, [5]), ("m6_5", 0, [0, 4]), ("m4_5", 0, [0, 1, 2, 3]), ("mp", 0, [0])]
     for b, sh, idxs in cancels:
         A({"op": "cancel-leases", "bucket": b, "shnum": sh, "idxs": idxs})
@@ -347,6 +357,21 @@ def _digest(snap):
 
 
 # ------------------------------------------------------------------ one case
+def _effect(before, r):
+    """how the bytes a share reads back differ from `before` (part of the violation signature, so that a known
+    finding names ONE effect at one call site and any other effect there is reported)"""
+    if r[0] == "absent":
+        return "absent"
+    got = r[1]
+    if got == before:
+        return "same-bytes-other-length%+d" % (r[2] - len(before))
+    if got[:len(before)] == before:
+        return "grew%+d" % (len(got) - len(before))
+    if before[:len(got)] == got:
+        return "shrank%+d" % (len(got) - len(before))
+    return "other-bytes"
+
+
 def check_case(prepared, cat, pre, op, crash_at, res=None):
     """prepared: directory prepared by prepare(); pre: dict from observe_pre(); crash_at None = run to completion.
     -> (violations [(sig, msg)], info dict)"""
@@ -414,7 +439,7 @@ def check_case(prepared, cat, pre, op, crash_at, res=None):
                         bad.append(("immutable-unreadable:%s:%s" % (type(ex).__name__, site), "reading %s raised %r; %s" % (name, ex, where)))
                         continue
                     if r[0] != "absent" and (r[1] != e["data"] or r[2] != len(e["data"])):
-                        bad.append(("immutable-incomplete:" + site,
+                        bad.append(("immutable-incomplete:" + site + ":" + _effect(e["data"], r),
                                     "(iii) immutable share %s (%d data bytes) reads back %d bytes, get_length=%d, extra/changed tail=%r; %s"
                                     % (name, len(e["data"]), len(r[1]), r[2], r[1][len(e["data"]):][:24], where)))
                     info.setdefault("target_outcomes", []).append("cancel:" + r[0])
@@ -434,7 +459,7 @@ def check_case(prepared, cat, pre, op, crash_at, res=None):
                     continue
                 if r != pre["reads"][name]:
                     got = r if r[0] == "absent" else ("data", r[1][:16], "...len=%d" % len(r[1]), "get_length=%d" % r[2])
-                    bad.append(("lease-op-changed-data:%s:%s" % (e["kind"], site),
+                    bad.append(("lease-op-changed-data:%s:%s:%s" % (e["kind"], site, _effect(pre["reads"][name][1], r)),
                                 "(ii) share %s only received/renewed a lease but its data changed: before read(0,%d) returned %d bytes (length %d), after restart %r; bytes after the original data: %r; %s"
                                 % (name, BIG, len(pre["reads"][name][1]), pre["reads"][name][2], got,
                                    (r[1][len(e["data"]):][:24] if r[0] == "data" else None), where)))
